@@ -809,3 +809,28 @@ K("hilbert.bad_parameters", ["C17", "C19"], HIL, "hilbert.rs", "hilbert_bad_para
   mutant=dict(file=HIL, old="    // Validate overflow\n    let total_bits = u128::from(d_u32) * u128::from(bits);\n    if total_bits > 128 {\n        return Err(HilbertError::IndexOverflow {\n            dimension: D,\n            bits,\n            total_bits,\n        });\n    }\n\n    if D == 0 {\n        return Ok(0);\n    }",
               new="    // Validate overflow\n    let total_bits = u128::from(d_u32) * u128::from(bits);\n    if total_bits > 256 {\n        return Err(HilbertError::IndexOverflow {\n            dimension: D,\n            bits,\n            total_bits,\n        });\n    }\n\n    if D == 0 {\n        return Ok(0);\n    }",
               desc="index overflow guard of hilbert_index relaxed to 256 bits"))
+
+_SL_RMC = dict(file=TDS, fn_anchor=r"pub fn remove_cells_by_keys\(&mut self, cell_keys: &\[CellKey\]\) -> usize", name="verif_slice_remove_cells_tail",
+               params="&mut self, removed_count: usize, affected_vertices: crate::core::collections::VertexKeySet, cells_to_remove: CellKeySet, candidate_incident: crate::core::collections::FastHashMap<VertexKey, CellKey>",
+               ret="usize", stmts=[dict(rest_of_block_after=r"let removed_count = self\.remove_cells_and_update_uuid_mappings")], result="")
+K("tds.remove_cells_tail", ["C11"], TDS, "tds_slices.rs", "remove_cells_tail_bumps_generation_contract", "K-slice",
+  [dict(file=TDS, name="Tds::remove_cells_by_keys (K-slice: everything after the removal step)", anchor=_SL_RMC["fn_anchor"])], slices=[_SL_RMC], timeout=900,
+  assumed=["K-slice: the tail of remove_cells_by_keys after `let removed_count = ..;` (frontier collection and the removal itself dropped); repair_incident_cells_after_cell_removal (stub: no-op)"],
+  obligations=["count", "bump-on-removal", "incidence-repaired", "no-bump-without-change"],
+  claim="Tds::remove_cells_by_keys, tail after the removal step, for every removed count: removed > 0 => generation bumped exactly once and incidence repaired; removed == 0 => no bump",
+  mutant=dict(file=TDS, old="        // Bump generation once for all removals (neighbors + incidence + cell storage).\n        self.bump_generation();\n", new="",
+              desc="generation bump after bulk cell removal deleted"))
+
+for nm, fname in [("is_point_outside", "is_point_outside"), ("find_visible", "find_visible_facets"), ("find_nearest", "find_nearest_visible_facet"), ("facet_visible", "is_facet_visible_from_point")]:
+    K(f"hull.stale_fast.{nm}", ["C11", "C19"], HULL, "hull.rs", f"hull_stale_fast_{nm}", "K-callee", [fn(HULL, fname, anchor=r"pub fn " + fname + r"\(")],
+      tier="quick" if nm in ("find_visible", "facet_visible") else "thorough", timeout=900 if nm in ("find_visible", "facet_visible") else 5400,
+      assumed=_HULL_ASSUME + ["is_facet_visible_from_point_with_cache (stub): only records that it was reached (its own staleness re-check: thorough-tier unit hull.stale.*)"],
+      obligations=["stale-" + nm.replace("_", "-"), "refused-first"], bounded="hull with one facet handle; all pairs of distinct u64 generations; any query point",
+      claim=f"ConvexHull::{fname} on a hull whose triangulation changed returns StaleHull before any cache build and before any per-facet work, for all pairs of distinct generations",
+      mutant=dict(file=HULL, old="        let visible_facets = self.find_visible_facets(point, tri)?;\n        Ok(!visible_facets.is_empty())",
+                  new="        let visible_facets = self.find_visible_facets(point, tri).unwrap_or_default();\n        Ok(!visible_facets.is_empty())",
+                  desc="is_point_outside swallows the StaleHull error") if nm == "is_point_outside" else None)
+_C19_QUICK |= {"hull.stale_fast.facet_visible"}
+for _u in UNITS:
+    if _u["id"].startswith("hull.stale_fast.") and _u["id"] not in _C19_QUICK:
+        _u.setdefault("tier_for", {})["C19"] = "thorough"
